@@ -663,6 +663,59 @@ for kind, r in zip(RKINDS, run_parallel(RKINDS, reverse_udp_client_stalled, work
         chk.violation('stall.udp-listener', f'blocked:api:{kind}', f'reverse UDP listener with a stalled session: GET /live -> {r["api_live"]}, process alive: {r["alive"]}', rp_)
     samples.append({'reverse_udp_client_stalled': r})
 
+# ---- a failure reply is written to a client that does not read it: however long the text of the failure (a refused
+#      destination is quoted in it, and the client chose the destination), the API goes on answering
+def unread_failure_reply():
+    up = Origin(fake_http_proxy)
+    hp_, ap_ = free_port(), free_port()
+    pxu = Proxy({'listeners': [{'name': 'http', 'bind': f'127.0.0.1:{hp_}'}], 'connectors': [{'name': 'c', 'type': 'http', 'server': '127.0.0.1', 'port': up.port}], 'rules': [{'target': 'c'}],
+                 'metrics': {'bind': f'127.0.0.1:{ap_}', 'ui': None}}, 'c14f')
+    pxu.api_port = ap_
+    if not pxu.start([hp_, ap_]):
+        return {'error': pxu.log()[-300:]}
+    held = []
+    try:
+        st0, _ = pxu.api('GET', '/live', timeout=DEADLINE)
+        for host in (b'a:' + b'"' * 60000, b'b:' + b'x' * 64000):
+            c = socket.socket()
+            c.setsockopt(socket.SOL_SOCKET, socket.SO_RCVBUF, 2048)
+            try:
+                c.setsockopt(socket.IPPROTO_TCP, socket.TCP_MAXSEG, 256)
+            except OSError:
+                pass
+            c.settimeout(5)
+            c.connect(('127.0.0.1', hp_))
+            c.sendall(b'CONNECT ' + host + b':80 HTTP/1.1\r\n\r\n')
+            held.append(c)      # ... and never reads
+        time.sleep(1.0)
+        t = time.time()
+        st, _ = pxu.api('GET', '/live', timeout=DEADLINE)
+        dt = time.time() - t
+        st2, _ = pxu.api('GET', '/status', timeout=DEADLINE)
+        # a well-behaved client is still served
+        try:
+            s_, code, head, rest = http_connect(hp_, 'ok.test:80', timeout=DEADLINE)
+            served = code == 200
+            s_.close()
+        except OSError:
+            served = False
+        return {'live_before': st0, 'live': st, 'live_s': round(dt, 2), 'status': st2, 'new_client_served': served, 'alive': pxu.alive()}
+    finally:
+        for c in held:
+            try: c.close()
+            except OSError: pass
+        pxu.stop(); up.stop()
+r = unread_failure_reply()
+evals += 1
+if isinstance(r, tuple) or 'error' in r or r['live_before'] != 200:
+    machinery(f'unread failure reply: {r}')
+distinct.add(('unread-failure-reply', r['live'], r['new_client_served']))
+if r['live'] != 200 or r['status'] != 200:
+    chk.violation('stall.unread-failure-reply', 'blocked:api:GET /live', f'two clients asked for destinations the upstream connector refuses (64 kB host names) and do not read the failure reply: GET /live -> {r["live"]} after {r["live_s"]} s, GET /status -> {r["status"]}', {'observed': r})
+if not r['new_client_served'] or not r['alive']:
+    chk.violation('stall.unread-failure-reply', 'blocked:fresh:http', f'with two clients not reading their failure reply a new client was not served ({r})', {'observed': r})
+samples.append({'unread_failure_reply': r})
+
 # ---- tunnels blocked on a slow peer, all of them multiplexed over ONE upstream connection (QUIC connector -> QUIC
 #      listener): whatever the blocked ones hold (stream windows, connection window, buffers), the other tunnels on that
 #      connection and new requests through it are still served. 8 and (thorough) 24 clients that never read a flood.
